@@ -39,7 +39,7 @@ CHECKS = {
                      'padding content is not compared (the protocol leaves it free)'],
     ),
     'C04': dict(
-        pkg='./c04', test='TestC04', level='fault_enumeration',
+        pkg='./c04', test='TestC04(Client)?', level='fault_enumeration', helpers={'vdriver': './cmd/vdriver'},
         quick=dict(shards=4, checks=60),
         thorough=dict(shards=16, checks=1500, budget_s=3000),
         level_text=('Every generated valid packet is subjected to the enumerated fault list: all single-bit flips (exhaustive for packets '
@@ -51,7 +51,7 @@ CHECKS = {
               'each base is evaluated under every fault of the list above; a case is (receiver key, bytes handed to DeserializeEncrypted / '
               'DeserializeUnencrypted). Non-trivial: the fault changes at least one byte; distinct by hash of (key, bytes).'),
         must_hit=['flip:keyid', 'flip:msgkey', 'flip:ciphertext', 'trunc:8..23-with-valid-keyid', 'trunc:<8', 'trunc:>=24', 'attacker:L<0',
-                  'attacker:L-just-above', 'attacker:L-huge', 'attacker:L-in-range', 'rekeyed', 'garbage', 'parity', 'plain:bad-length', 'plain:truncated-header'],
+                  'attacker:L-just-above', 'attacker:L-huge', 'attacker:L-in-range', 'rekeyed', 'garbage', 'parity', 'plain:bad-length', 'plain:truncated-header', 'client:forged-plain-result', 'client:corrupted-result'],
         assumptions=['the reference acceptance decision reads the statement literally: key id, msg_key over header+declared body, 0<=L<=data, server parity; '
                      'an attacker-with-key packet that satisfies all four is accepted (the statement allows it)'],
     ),
@@ -118,7 +118,7 @@ CHECKS = {
               '0..300 arbitrary bytes, salts over all int64 classes, host names of arbitrary valid UTF-8 incl. JSON metacharacters. Non-trivial: a load after a '
               'second store, a torn file, a non-ASCII or metacharacter host, or a negative salt; distinct by hash of the history.'),
         must_hit=['op:tear', 'torn-file', 'load-after-second-store', 'load-after-same-tick-store', 'load-missing', 'path:bare', 'path:relative', 'path:absolute',
-                  'host-non-ascii', 'host-json-metachar', 'salt-negative', 'op:remove', 'op:storeFresh', 'op:loadFresh'],
+                  'host-non-ascii', 'host-json-metachar', 'salt-negative', 'op:remove', 'op:storeFresh', 'op:loadFresh', 'store-of-an-earlier-value'],
         assumptions=['host names are valid UTF-8 (JSON cannot carry other byte strings)', 'the directory of the path exists',
                      'a crash during writing leaves a prefix of the new content (os.WriteFile truncates, then writes)',
                      'same-tick stores are emulated with os.Chtimes and only for stores through the loader that later loads'],
@@ -253,7 +253,7 @@ CHECKS = {
         rule=('case = key-exchange scenario (RSA key, server_nonce, p<q primes, pq padding, g, server secret a, padding seed, optionally injected client nonce/new_nonce/b). '
               'Every completed run is non-trivial; classes record which field the server actually saw starting with zero bytes; distinct by hash of the scenario.'),
         must_hit=['corner:nonce', 'corner:server_nonce', 'corner:new_nonce', 'corner:new_nonce_hash1', 'corner:rsa_ciphertext', 'corner:g_a', 'corner:g_b', 'corner:g_ab',
-                  'draws:client-own', 'draws:injected', 'verdict:ok'],
+                  'draws:client-own', 'draws:injected', 'pq:above-2^63', 'pq:small', 'verdict:ok'],
         assumptions=['the reference server is conformant: it follows core.telegram.org/mtproto/auth_key with fixed-width values (self-consistent: it completes with the fixed client)',
                      'DH group = Telegram\'s 2048-bit safe prime', 'a connect that the server side had to abandon (recorded reason) is judged by that reason, never by elapsed time'],
     ),
@@ -302,7 +302,7 @@ CHECKS = {
         technique='scenario-based property testing (rapid) with tagged requests against a scripted reference server; directed yield-point schedules',
         rule=('case = rpc scenario on a resumed session: callers x tagged requests, answer order/grouping/gzip/errors, optional hold of one sender until another request arrived, GOMAXPROCS. '
               'Non-trivial: >=2 requests answered out of order, a container, a gzip-packed result or a vector result; distinct by hash of the scenario.'),
-        must_hit=['feat:answered-out-of-order', 'feat:container', 'feat:gzip', 'feat:rpc-error', 'concurrent-callers', 'verdict:ok'] +
+        must_hit=['feat:answered-out-of-order', 'feat:container', 'feat:gzip', 'feat:rpc-error', 'concurrent-callers', 'directed:answer-while-sender-in-send-path', 'verdict:ok'] +
                  ['feat:%s:%s' % (k, f) for k in ('object', 'bool', 'vecint', 'veclong', 'vecobj') for f in ('plain', 'container', 'gzip')],
         assumptions=['requests are made through MakeRequest / MakeRequestWithHintToDecoder with the hint the generated method of that function passes, followed by the same type assertion',
                      'a stall verdict needs a quiescent deadlocked state seen in two goroutine dumps; anything else after the patience is inconclusive',
@@ -321,7 +321,7 @@ CHECKS = {
         rule=('case = rpc scenario (callers, answer schedule, interleaved server pushes, optional hold at send.msgid, GOMAXPROCS). Non-trivial: the received stream has two '
               'adjacent requests or an acknowledgement interleaved with requests; distinct by hash of the scenario.'),
         must_hit=['feat:adjacent-requests', 'feat:ack-interleaved-with-requests', 'feat:content-related-in-container', 'directed:hold-after-msgid', 'server-history:content-related-push',
-                  'server-history:service-push', 'concurrent-callers', 'verdict:ok'],
+                  'server-history:service-push', 'server-history:close-and-reconnect', 'feat:stream-continues-after-reconnect', 'concurrent-callers', 'verdict:ok'],
         assumptions=['seq_no: the statement demands parity and monotonicity, not the exact value 2*count',
                      'no clock hook: equal clock readings for two messages are unreachable here (a write system call separates two reads under the send lock)',
                      'a missing acknowledgement is a violation only when the client is quiescent (receive loop idle in two goroutine dumps)'],
